@@ -108,6 +108,40 @@ CLAIMED.update({
         technique="Coq proof (relational model + invariants; escaping/scanner inverse by induction) + trace acceptance against hook snapshots", ref="DESIGN.md §5 C16"),
 })
 
+SRV_NOTE = COMMON_NOTE + ("Axioms: none for the LTS / transport theorems (closed under the global context); the instantiation with the library (C11) inherits C08's. "
+    "tokio's mpsc/oneshot channels, task wake-ups, hyper/axum/tonic/prost/serde are REAL in the tests and MODELLED in the theorems (bounded FIFO queue, one-shot slots, "
+    "abstract JSON object, int32 message); fairness of the runtime is a premise of the progress theorems.")
+CLAIMED.update({
+    "C09": dict(
+        text="Machine-checked theorems (Properties/C09.v) over a labelled transition system of clients, bounded queue, reply slots and ONE sequential limiter (Server/Actor.v): every reachable state's "
+             "answers are those of the sequential limiter run over the actor's processing log, which contains each client's requests in program order and respects real-time precedence "
+             "(answered-before-invoked implies earlier in the log), for every schedule, queue capacity >= 1, number of clients and limiter; N equal-timestamp unit requests on a full bucket admit min(N,B). "
+             "The real actor loop (hook H2) and real handle futures are driven through every poll order of small configurations and PRNG schedules beyond; the linearization found is replayed on the Coq model; "
+             "real-socket runs mix HTTP, gRPC and RESP against one real server process.",
+        note=SRV_NOTE + " The 'exactly min(N,B)' clause is proved for requests processed in timestamp order; transports stamp requests before enqueueing, so a sub-microsecond disorder can deny one request with retry_after 0 (DESIGN.md §6, not exhibited on the real server).",
+        technique="Coq proof (invariants over an interleaving LTS; linearization = the actor's log) + exhaustive/sampled deterministic scheduling of the real actor future + real-socket runs", ref="DESIGN.md §5 C09"),
+    "C10": dict(
+        text="Machine-checked theorems (Properties/C10.v) on the same LTS: at most one answer per request and never two, a request is never dropped by a full queue (callers wait), deadlock freedom "
+             "(some step is always enabled while work remains, for every capacity >= 1), a decreasing measure (termination under any fair schedule), every request is answered or was abandoned by its client, "
+             "abandoning a request at any point changes no other client's answers and never un-does its own budget effect once queued; RESP pipelines: one reply per command in order for every splitting (with C13). "
+             "Real actor future with capacity 1 and abandon actions under exhaustive/sampled schedules; real TCP pipelines in many splittings.",
+        note=SRV_NOTE, technique="Coq proof (progress + measure + exactly-once invariants over the LTS; stream/chunk refinement for RESP) + deterministic scheduling of the real actor future + TCP correspondence", ref="DESIGN.md §5 C10"),
+    "C11": dict(
+        text="Machine-checked theorems (Properties/C11.v): in the LTS the limiter task stays alive across every request on which the limiter step does not panic; C08 totality discharges that premise for the "
+             "library on every i64 input (timestamps 1970..2200), so every reachable state is alive and every answer is a documented one; a closed connection is inert. "
+             "Hostile requests (C08 lattice corners) through the real actor future under the scheduler; hostile prefixes (extreme values, garbage, oversize, deep nesting, abrupt close) on every transport of one "
+             "real server process followed by probes on fresh connections of every protocol.",
+        note=SRV_NOTE + " Panics inside hyper/axum/tonic themselves are outside the model; the wire test exercises them.",
+        technique="Coq proof (survival invariant, instantiated with the library totality theorem) + hostile-prefix/probe differential runs on the real actor and the real server", ref="DESIGN.md §5 C11"),
+    "C12": dict(
+        text="Machine-checked theorems (Properties/C12.v): the transports are modelled by INTERPRETING the field-mapping tables re-extracted from types.rs/http.rs/grpc.rs/redis/mod.rs and the proto file on every run; "
+             "one exchange = decode, one limiter step, whole seconds, render, read at the documented positions; the same logical request gives the same limiter step and answer on all three protocols; "
+             "JSON decoding characterised exactly (any field order, unknown fields, null/omitted quantity = 1), RESP bulk/integer encodings via the decimal round trip, gRPC widening; refused or rejected requests "
+             "answer an error and leave every key's state unchanged; gRPC is exact within int32 and saturates beyond (residual = known finding). One real server process compared field by field with the model.",
+        note=SRV_NOTE + " The property's 'equal' for gRPC durations above 2^31-1 s is refuted (C12_refuted_for_grpc_long_durations; known finding grpc-int32-range); the wrap to negative numbers found first was repaired (91fa2b8).",
+        technique="Coq proof over a table-interpreting (regenerated) glue model + refinement to the abstract limiter + real-socket differential correspondence with independent clients", ref="DESIGN.md §5 C12"),
+})
+
 PENDING_REASON = ("framework for this property is still being built in this round (DESIGN.md §8.2 order of work); "
                   "no check is claimed until its theorems and correspondence run")
 
